@@ -370,6 +370,27 @@ def run(facts, tier):
         e4.examined("main-loop", True, {"try_for_each": ntry, "for_each": nfor})
         if ntry < 2 or nfor:
             e4.violate("main-loop", f"the main loop of data::run does not propagate the first error on both levels (try_for_each x{ntry}, for_each x{nfor})", where=dr["sp"])
+    # an error of writing an output (or of the filter) is never turned into success
+    n_arms = 0
+    for crate in ("jaq", "jaq_all"):
+        for f_ in facts.hir(crate):
+            if f_.get("test") or f_["def"].startswith("jaq::funs::repl"):
+                continue
+            for mm in find(f_["body"], lambda n: n.get("k") == "Match" and n.get("src") == "Normal"):
+                for a_ in mm["arms"]:
+                    pat_err = [p_ for p_ in find(a_["pat"], lambda n: n.get("k") in ("TupleStruct", "Path")) if str((p_.get("path") or {}).get("def", "")).endswith("result::Result::Err")]
+                    if not pat_err:
+                        continue
+                    n_arms += 1
+                    b_ = strip(a_["body"])
+                    gives_ok = b_.get("k") == "Call" and str((strip(b_["f"]).get("path") or {}).get("def", "")).endswith("result::Result::Ok")
+                    if gives_ok:
+                        e4.violate(f"error-to-ok/{f_['def'].split('::{closure')[0]}", f"`{f_['def']}` maps an `Err` to `Ok` ({'under a condition' if a_.get('guard') is not None else 'always'}): a failed write (e.g. a closed pipe) or filter error no longer ends the run, later outputs are computed and later inputs consumed", where=a_["sp"])
+            for n in find(f_["body"], lambda n: n.get("k") == "MethodCall" and n["m"]["name"] in ("or", "or_else", "unwrap_or", "unwrap_or_default", "unwrap_or_else", "ok") and "core::result::Result<" in str(n.get("recv_ty", "")) and "std::io::error::Error" in str(n.get("recv_ty", ""))):
+                if n["m"]["name"] in ("or", "or_else") and not find(n["args"], lambda x: x.get("k") == "Path" and str(x["path"].get("def", "")).endswith("Result::Ok")):
+                    continue
+                e4.violate(f"error-defaulted/{f_['def'].split('::{closure')[0]}", f"`{f_['def']}` replaces an I/O error by a default (`{n['m']['name']}`): the failure does not end the run", where=n["sp"])
+    e4.examined("err-arms", True, {"arms_matching_Err_in_the_driver": n_arms})
     rules.append(e4.finish())
 
     # ---------------- E17.5 outcomes are examined one at a time (shared with C18 W18.8)
